@@ -837,7 +837,11 @@ func scenarioMain(args []string) {
 		}()
 		time.Sleep(150 * time.Millisecond)
 		lg.step("Shutdown of both nodes with open sockets, a subscription, a listener, a connection, and a Ping and a Dial in flight")
-		m.Shutdown()
+		// Shutdown() itself must stop everything: the context the nodes were created from stays alive
+		// (a program that creates and shuts down nodes keeps running) until the residue has been judged
+		a.Shutdown()
+		b.Shutdown()
+		defer m.Shutdown()
 		for i := 0; i < 2; i++ {
 			select {
 			case r := <-inflight:
